@@ -93,7 +93,7 @@ Definition model_obs (i : input) : obs :=
   match i with
   | ISeal key nonce now1 now2 u m now' =>
     let s := base_surl key nonce now1 now2 u m in
-    OSeal (s_path s) (request_uri (escaped_path (u_path u)) (u_query u))
+    OSeal (s_path s) (request_uri (u_path u) (u_query u))
           (unseal sym_open key now' (mutate key s m))
   | IHandle guard ctx mode meth ro qbad p =>
     let p_in := trim_left_slash (if mode =? 2 then match unescape p with Some q => q | None => p end else p) in
